@@ -125,3 +125,58 @@ def root_place(fn, op, depth=0):
             r = root_place(fn, t[2][0], depth + 1)
             return (r[0], r[1] + rest) if r else None
     return (local, rest)
+
+
+def upvar_source(db, clo, idx):
+    """For closure `clo`, the operand captured as environment field `idx`:
+    returns (parent fn, expression in the parent) or None."""
+    pname = clo.get("parent")
+    if not pname:
+        return None
+    for par in db.by_key.get(strip_generics(pname), []):
+        if par["unit"] != clo["unit"]:
+            continue
+        for b in par["blocks"]:
+            for s in b["s"]:
+                if s[0] == "=" and s[2][0] == "agg" and isinstance(s[2][1], dict) \
+                        and s[2][1].get("closure") and strip_generics(s[2][1]["closure"]) == clo["key"]:
+                    ops = s[2][2]
+                    if idx < len(ops):
+                        return par, expr_operand(par, ops[idx])
+    return None
+
+
+def iter_chain(fn, e, depth=0):
+    """Walk an iterator-adapter chain expression back to its source.
+    Returns (source expr, [(adapter name, closure name or None)]) outermost adapter last."""
+    ADAPT = re.compile(r"core::iter::traits::iterator::Iterator::(filter|map|filter_map|take|skip|cloned|copied|flat_map|chain|take_while|skip_while|inspect|peekable|enumerate|rev)$")
+    steps = []
+    for _ in range(24):
+        e = cfg.peel(e)
+        if e[0] == "call" and ADAPT.search(e[1].get("dn") or ""):
+            clo = None
+            if len(e[2]) > 1:
+                a = cfg.peel(e[2][1])
+                if a[0] == "agg" and isinstance(a[1], dict) and a[1].get("closure"):
+                    clo = (a[1]["closure"], a[2])
+            steps.append((e[1]["dn"].rsplit("::", 1)[1], clo))
+            e = e[2][0]
+            continue
+        if e[0] == "call" and (e[1].get("dn") or "").endswith("IntoIterator::into_iter") and e[2]:
+            e = e[2][0]
+            continue
+        break
+    return e, steps[::-1]
+
+
+def closure_family(db, fn, name):
+    """The closure `name` (constructed in fn's unit) and all closures nested in it."""
+    key = strip_generics(name)
+    out = []
+    for f in db.by_key.get(key, []):
+        if f["unit"] == fn["unit"]:
+            out.append(f)
+    for k, fs in db.by_key.items():
+        if k.startswith(key + "::{closure#"):
+            out.extend(f for f in fs if f["unit"] == fn["unit"])
+    return out
